@@ -293,42 +293,79 @@ impl std::fmt::Display for Method {
         f.write_str(self.as_str())
     }
 }
-/// Request target. Contract kept: `query()` is the part after the first `?` (without it), if any.
+/// Request target. Contract kept: the path is `/p`; `query()` is the part after the first `?`
+/// (without it), if any; `path_and_query()` is `path ["?" query]`.
 pub const QUERY_CAP: usize = 8;
+pub mod uri {
+    use super::QUERY_CAP;
+    #[derive(Clone, Copy, Debug, PartialEq, Eq)]
+    pub struct PathAndQuery {
+        pub(crate) buf: [u8; QUERY_CAP + 3],
+        pub(crate) len: usize,
+        pub(crate) has_query: bool,
+    }
+    impl PathAndQuery {
+        pub fn as_str(&self) -> &str {
+            // harness precondition: ASCII
+            unsafe { std::str::from_utf8_unchecked(&self.buf[..self.len]) }
+        }
+        pub fn path(&self) -> &str {
+            "/p"
+        }
+        pub fn query(&self) -> Option<&str> {
+            if self.has_query {
+                Some(unsafe { std::str::from_utf8_unchecked(&self.buf[3..self.len]) })
+            } else {
+                None
+            }
+        }
+    }
+    impl std::fmt::Display for PathAndQuery {
+        fn fmt(&self, f: &mut std::fmt::Formatter<'_>) -> std::fmt::Result {
+            f.write_str(self.as_str())
+        }
+    }
+}
 #[derive(Clone, Copy, Debug, PartialEq, Eq)]
 pub struct Uri {
-    has_query: bool,
-    q: [u8; QUERY_CAP],
-    qlen: usize,
+    pq: uri::PathAndQuery,
 }
 #[allow(non_upper_case_globals)]
 impl Uri {
     /// shim-only: a target without a query string (`http::Uri` used to be a unit struct in this shim;
     /// the constant of the same name keeps `target: http::Uri` compiling)
     pub const fn without_query() -> Uri {
-        Uri { has_query: false, q: [0; QUERY_CAP], qlen: 0 }
+        let mut buf = [0u8; QUERY_CAP + 3];
+        buf[0] = b'/';
+        buf[1] = b'p';
+        Uri { pq: uri::PathAndQuery { buf, len: 2, has_query: false } }
     }
     /// shim-only: a target whose query string is the given ASCII bytes
     pub fn with_query(b: &[u8]) -> Uri {
-        let mut u = Uri { has_query: true, q: [0; QUERY_CAP], qlen: 0 };
+        let mut u = Uri::without_query();
+        u.pq.buf[2] = b'?';
+        u.pq.has_query = true;
         let mut i = 0;
         while i < b.len() && i < QUERY_CAP {
-            u.q[i] = b[i];
+            u.pq.buf[3 + i] = b[i];
             i += 1;
         }
-        u.qlen = i;
+        u.pq.len = 3 + i;
         u
     }
     pub fn query(&self) -> Option<&str> {
-        if self.has_query {
-            // harness precondition: ASCII
-            Some(unsafe { std::str::from_utf8_unchecked(&self.q[..self.qlen]) })
-        } else {
-            None
-        }
+        self.pq.query()
     }
     pub fn path(&self) -> &str {
-        "/"
+        "/p"
+    }
+    pub fn path_and_query(&self) -> Option<&uri::PathAndQuery> {
+        Some(&self.pq)
+    }
+}
+impl std::fmt::Display for Uri {
+    fn fmt(&self, f: &mut std::fmt::Formatter<'_>) -> std::fmt::Result {
+        f.write_str(self.pq.as_str())
     }
 }
 #[allow(non_upper_case_globals)]
